@@ -66,6 +66,10 @@ def lists(pe):
     a, b = prim(pe, A12, 'e0'), prim(pe, {'B|r1': 's3', 'B|r2': 'irr2'}, 'e1', mean=0.5)
     out['two-ensembles'] = [a, b, a * b]
     out['cov'] = [prim(pe, A12, 'c0') * cv1, cv2[0] * prim(pe, {'A|r1': 'c8'}, 'c1') + cv2[1], prim(pe, {'B|r1': 'ev'}, 'c2'), cv3[0] * cv3[1] + cv3[2] * prim(pe, A12, 'c3')]
+    # observables that depend on covariance inputs ONLY (alone in the file, several of them, next to Monte-Carlo observables)
+    out['cov-only-single'] = [cv1 * 1.0]
+    out['cov-only'] = [cv2[0] * cv2[1], cv3[0] + cv1, cv3[1] * cv3[2] - cv2[0]]
+    out['cov-only-first'] = [cv2[1] * 2.0, prim(pe, A12, 'co0'), prim(pe, {'B|r1': 'ev'}, 'co1') * cv1]
     out['cov-shared'] = [cv2[0] * prim(pe, A12, 'cs0'), cv2[1] * prim(pe, A12, 'cs1'), cv2[0] + cv2[1] * prim(pe, {'B|r1': 'c8'}, 'cs2')]
     out['count-zeros'] = [prim(pe, A12, 'z0', 'count'), prim(pe, {'A|r1': 'c12'}, 'z1', 'count'), prim(pe, {'A|r1': 'irr', 'A|r2': 'c8'}, 'z2', 'count')]
     x = np.array([1.0, 2.0, 3.0, 4.0, 2.5, 2.5, 1.5, 3.5])   # the mean 2.5 occurs as a sample
@@ -177,7 +181,7 @@ MODES = [True, None, False, 1, 'r', 2, 0]
 
 def build(tier, seed):
     cases = [{'kind': 'dobs', 'list': k} for k in ['single', 'same-layout', 'nested', 'interleaved', 'disjoint', 'replica-subsets', 'two-ensembles',
-                                                   'cov', 'cov-shared', 'count-zeros', 'sample-equals-mean', 'big-strided', 'mixture', 'bare-name', 'constant-on-replica', 'long-ensemble-names', 'tiny-and-huge']]
+                                                   'cov', 'cov-only-single', 'cov-only', 'cov-only-first', 'cov-shared', 'count-zeros', 'sample-equals-mean', 'big-strided', 'mixture', 'bare-name', 'constant-on-replica', 'long-ensemble-names', 'tiny-and-huge']]
     cases += [{'kind': 'pobs', 'list': k} for k in ['single', 'three', 'replicas', 'count-zeros', 'big', 'bare-name', 'tiny', 'huge', 'derived-replicas']]
     # pobs files whose observables differ in their configuration lists / replica sets: the format has one configuration
     # column per replica, so such a list is either refused on export or comes back faithfully - never re-labelled
@@ -299,6 +303,25 @@ def run_pobs(pe, acc, case, d):
             acc.fail('pobs:outside-domain-accepted:' + nm, dict(case, bad=nm), 'pobs export accepted %s' % nm)
         except Exception:
             acc.ok(('pobs-ref', case['list'], nm), True, 'refused')
+    # a refused export leaves nothing behind: a valid file written before under the same name is still there and readable
+    for gz in (True, False):
+        fn = os.path.join(d, 'keep')
+        pe.input.dobs.write_pobs([a], fn, 'kept', gz=gz)
+        for nm, lst in (('different-ensembles', [a, b]), ('two-ensembles', [a * b])):
+            try:
+                pe.input.dobs.write_pobs(lst, fn, 'refused', gz=gz)
+                refused = False
+            except Exception:
+                refused = True
+            try:
+                kept = pe.input.dobs.read_pobs(fn, gz=gz, separator_insertion=1)
+                badk = (None if len(kept) == 1 else '%d observables' % len(kept)) or same(a, kept[0], name_map(1, list(a.deltas)), pe) if refused else None
+            except Exception as e:
+                badk = 'the file can no longer be read: %s: %s' % (type(e).__name__, e)
+            if badk:
+                acc.fail('pobs:refused-write-destroys-file', dict(case, bad=nm, gz=gz), 'a refused write_pobs (%s) over an existing file left it changed: %s' % (nm, badk))
+            else:
+                acc.ok(('pobs-keep', case['list'], nm, gz), True, 'refused')
     # the pobs format has no place for covariance inputs: an observable carrying one is refused, or (if a writer learns to
     # store it) comes back with it -- it is never written with the covariance input silently dropped
     cv = pe.cov_Obs(1.0, 0.01, 'cv')
